@@ -1,6 +1,9 @@
 from vlib import runner, sysprops
 
-PARTIAL = ['server: while the limiter is at its limit and the sink is not ready, cancellations and expirations are not processed (known finding)']
+PARTIAL = [
+    'reclaim clause of the client monitor (table empty once every call resolved or dropped and the transport was writable): def C11_monitor_full_Statement, monitor only',
+    'known finding: limiter stall leaves the server table above the yielded-and-unfinished requests',
+]
 
 
 def run(tier, seed, replay):
